@@ -3,8 +3,8 @@ package c17
 import (
 	"fmt"
 	"os"
-	"sort"
 	"runtime"
+	"sort"
 	"strconv"
 	"strings"
 	"sync"
